@@ -215,7 +215,7 @@ def run_c04(tier, seed, scale, verif):
 
 def run_c11(tier, seed, scale, verif):
     t0 = time.time()
-    cases = export(verif, "cfg", int((2500 if tier == "quick" else 50000) * scale), seed)
+    cases = export(verif, "cfg", int((2500 if tier == "quick" else 30000) * scale), seed)
     shapes, samples = set(), []
 
     def judge(c, status, diags):
@@ -244,7 +244,7 @@ def run_c11(tier, seed, scale, verif):
 
 def run_c01(tier, seed, scale, verif):
     t0 = time.time()
-    cases = export(verif, "hostile", int((4000 if tier == "quick" else 120000) * scale), seed)
+    cases = export(verif, "hostile", int((4000 if tier == "quick" else 50000) * scale), seed)
     shapes, samples = set(), []
 
     def judge(c, status, diags):
